@@ -1,6 +1,6 @@
 (* C02 - DNS message parsers are total and memory-safe on arbitrary bytes.
    Statements only; proofs are in Wire/*_proofs.v *)
-From CAres.Wire Require Import Cursor Cursor_proofs Name Name_proofs Record Parse Parse_proofs.
+From CAres.Wire Require Import Cursor Cursor_proofs Name Name_proofs Record Parse Parse_proofs RefDecode Name_ref Parse_shape.
 From CAres.Gen Require Import Consts.
 Local Open Scope Z_scope.
 
@@ -13,6 +13,22 @@ Theorem C02_parse_no_ub : forall variant bytes flags,
   Z.of_nat (length bytes) < 2 ^ 64 -> safe (fun _ => True) (dns_parse_v variant bytes flags).
 Proof. exact dns_parse_v_safe. Qed.
 Print Assumptions C02_parse_no_ub.
+
+(* success comes with a fully formed result: exactly one question; the number of RRs in each
+   section is the count announced in the header octets; every RR has a type the library knows, every
+   key of that type (in the order of ares_dns_rr_get_keys) and under each key a value of the key's
+   datatype.  (An error carries no record by the type of the result.)  All flags, both variants. *)
+Theorem C02_result_shape : forall variant bytes flags r,
+  bytes_ok bytes -> Z.of_nat (length bytes) < 2 ^ 64 ->
+  dns_parse_v variant bytes flags = Ok r ->
+  length (d_qd r) = 1%nat /\
+  u16_at bytes 4 = Some 1 /\
+  u16_at bytes 6 = Some (Z.of_nat (length (d_an r))) /\
+  u16_at bytes 8 = Some (Z.of_nat (length (d_ns r))) /\
+  u16_at bytes 10 = Some (Z.of_nat (length (d_ar r))) /\
+  Forall rr_shape (d_an r ++ d_ns r ++ d_ar r).
+Proof. exact result_shape. Qed.
+Print Assumptions C02_result_shape.
 
 (* ares_dns_name_parse at any offset of any block, any fuel >= S(data_len), both modes:
    no out-of-bounds read (no UB of the model) *)
